@@ -141,10 +141,28 @@ def a3(repo, res):
                             "children also have to follow a change of the path LENGTH"))
 
 
+def a4(repo, res):
+    """the position getter hands out a fresh array: with a view, `col.position += d` changes the path in place before the setter runs,
+    the setter then computes a zero displacement and the children stay behind"""
+    import origin_rules
+    from origin_rules import O, org_of, run_node
+    geo = repo.cls("BaseGeo")
+    fn = geo.getters.get("position")
+    res.require(fn is not None, "anchor vanished: BaseGeo.position getter")
+    out, dom, it = run_node(geo.mod.name, fn, dict(self=O({"A:self"})), name="BaseGeo.position[get]")
+    alias = sorted(o for o in org_of(out) if o.startswith("A:self"))
+    res.ob("A4:position getter returns a fresh array", not alias, {"rule": "A4", "returns": repr(out)})
+    if alias:
+        res.add(Finding("A4", geo.mod.rel, "BaseGeo.position (getter)", f"returns a value aliasing {alias}",
+                        "an augmented assignment through the getter (`col.position += d`) edits the internal path before the setter runs; "
+                        "the compound setter then sees no displacement and leaves the children behind", fn.lineno))
+
+
 def run(repo, res, tier):
     res.rules = ["A1 position setter algebra", "A2 orientation setter algebra", "A3 recursion coverage / argument forwarding", "M1 in-place pose writes only on the updated object", "V1 pose validators return copies"]
     frame_rules.c10_algebra(repo, res)
     a3(repo, res)
+    a4(repo, res)
     import origin_rules
     origin_rules.pose_mutations(repo, res, rule="M1")
     origin_rules.validators_fresh(repo, res, rule="V1", only=("check_format_input_anchor", "check_format_input_vector", "check_format_input_orientation", "make_float_array"))
